@@ -5,6 +5,7 @@ use std::io::{self, BufRead, Write};
 
 mod action;
 mod common;
+mod method;
 mod window;
 
 fn main() {
@@ -24,6 +25,7 @@ fn main() {
 		let res: Vec<i128> = match suite.as_str() {
 			"window" => window::run(&mut toks),
 			"action" => action::run(&mut toks),
+			"method" => method::run(&mut toks),
 			other => panic!("unknown suite {other}"),
 		};
 		write!(out, "{id}").unwrap();
